@@ -11,6 +11,6 @@ for id in "$@"; do
   ./check "$id" "$tier" > ".target/mutant_$id.out" 2>&1; code=$?
   echo "== $id exit=$code"; grep -E "VIOLATION|KNOWN-FINDING|MACHINERY|^OK|^  " ".target/mutant_$id.out" | cut -c1-400 | head -12
 done
-git -C /repo checkout -- . 
+git -C /repo checkout -- . ; git -C /repo clean -fdq
 cp .target/evidence_keep/*.json evidence/ 2>/dev/null
 git -C /repo status --short | head -3
